@@ -151,7 +151,7 @@ func (s *Sim) Deliver(b *MBlock) {
 		}
 		s.judgedInv++
 		r.Probe("invalid-judged:" + b.Class)
-	case b.ChainValid():
+	case b.ChainValid() && !s.excluded(b):
 		if err != nil && !(isRule(err) && badOrphanBelow) {
 			r.Violate("C01", "valid-accepted", "", "valid block %v (mut=%q) on a valid chain rejected: %v", b, b.Mut, err)
 		}
@@ -168,8 +168,13 @@ func (s *Sim) Deliver(b *MBlock) {
 	if !tooNew || preHave {
 		s.delivered[b] = true
 	}
+	if err != nil && !preHave && !s.have(b) {
+		// refused and not stored (e.g. an ancestor is known invalid): the
+		// node does not know the block; it can be delivered again later
+		delete(s.delivered, b)
+	}
 	for i, p := range s.pending {
-		if p == b && s.delivered[b] {
+		if p == b && (s.delivered[b] || !tooNew) {
 			s.pending = append(s.pending[:i:i], s.pending[i+1:]...)
 			break
 		}
@@ -246,7 +251,7 @@ func (s *Sim) CheckState(where string) {
 		if (b.Class == ClsHeader || b.Class == ClsBlock) && acc {
 			r.Violate("C01", "invalid-not-stored", "", "block %v violating a %s rule (%s) was accepted into the index", b, b.Class, b.Reason)
 		}
-		if s.delivered[b] && !s.doubt[b] && b.ChainValid() {
+		if s.delivered[b] && !s.doubt[b] && b.ChainValid() && !s.excluded(b) {
 			pacc := s.accepted(b.Parent)
 			if pacc && !acc {
 				key := ""
